@@ -10,56 +10,51 @@ PY = '/venv/bin/python'
 CHECKS = {
     'C01': ('DESIGN.md 4/C01',
             'deviation-bounded enumeration of model/configuration points; each generated shell is compiled against a mock Dezyne runtime and an auto-generated driver enumerates every (port, event, argument position) in both travel directions inside the compiled program',
-            'Every point within 1 (quick) / 2 (thorough) deviations of the base point AND of the multi-client base point in a 22-dimensional model space (ports 0-3 per direction, namespaces incl. nested/shadowing/repeated names, interface placement and spelling, event menu and declaration order, per-interface externs, value- and reference-typed externs, identifier shapes, semantics, origin, multi-client variants, prefix, system/component), plus the semantics x origin cross product and name-relation corner points (102 / ~1000 programs). Per program every event is fired twice (declaration order, then reverse) with pairwise distinct - and same-typed - argument values while recorders sit on all events of all ports: exactly one hit on the same-named event of the same-named port; arguments, reply, out and inout values intact; under AddressSanitizer.',
-            'Trusted: mock dzn:: runtime (vf/cxx/mock), mock dzn-code header generator (modelgen), driver generator (lab.py), g++ 12. Model space bounds: <=2 ports per direction, extern-typed formals.'),
+            'Every point within 1 (quick) / 2 (thorough) deviations of the base point AND of the multi-client base point in a 24-dimensional model space (ports 0-3 per direction sharing one interface / none / first-and-third only, 0/1/3 injected ports, namespaces incl. nested/shadowing/repeated names, interface placement and spelling, event menu (16 events, up to 4 formals, long names) and declaration order, per-interface externs, value- and reference-typed externs, identifier shapes incl. Python keywords and 45-character names, semantics, origin, multi-client variants incl. an interface with only claim/release, prefix, system/component), plus the cross products semantics x origin and event-menu x semantics x origin and name-relation corner points (134 / ~1480 programs). Per program every event is fired twice (declaration order, then reverse) with pairwise distinct - and same-typed - argument values while recorders sit on all events of all ports: exactly one hit on the same-named event of the same-named port; arguments, reply, out and inout values intact; REENTRANT: every inbound event handled by a component that raises an outbound event of the same port from inside the handler; out-events of the multi-client port reach the holder; under AddressSanitizer.',
+            'Trusted: mock dzn:: runtime (vf/cxx/mock), mock dzn-code header generator (modelgen), driver generator (lab.py), g++ 12. Model space bounds: <=3 ports per direction, extern-typed formals.'),
     'C02': ('DESIGN.md 4/C02',
             'same compiled programs as C01; dispatcher involvement measured on a deterministic step pump (posted counter, in-dispatch flag, deferred queueing with overwritten arguments and scrubbed stack, ASan use-after-return)',
-            "Same programs as C01. Per exposed port: accessor return type Sts<>/Mts<> of the right interface, port identity (STS = the component's own port object); per event, measured on a deterministic step pump: dispatcher involvement exactly as configured, requires out-events deferred with their in-arguments copied (arguments overwritten, stack scrubbed, ASan use-after-return) - incl. reference-typed externs, 4 formals, formal names related by substring.",
+            "Same programs as C01. Per exposed port: accessor return type Sts<>/Mts<> of the right interface and support namespace, port identity (STS = the component's own port object); per event, measured on a deterministic step pump: dispatcher involvement exactly as configured, requires out-events deferred with their in-arguments copied (arguments overwritten, stack scrubbed, ASan use-after-return) - incl. reference-typed externs, 4 formals, formal names related by substring, statements longer than 120 columns, mixed STS/MTS requires ports in either declaration order.",
             'Trusted: as C01. "Blocks the caller until the dispatcher has run it" is additionally explored under the scheduler in C11.'),
     'C04': ('DESIGN.md 4/C04',
             'explicit-state exploration of multi-client histories inside the compiled program: every claim/release/other history replayed on a fresh shell with an out-event probe after each operation; un-pruned sweep + BFS pruned on (reference state, probe)',
-            'All multi-client points of the lab space (naming variants incl. claim named Release, every granting value of a 4-field enum, claim/release signatures none/(in,out)/(inout), release declared before claim, multi-client port first/second/middle, namespaces, per-interface externs...) x 1..2 / 1..3 registered clients (identifiers related by prefix and case) x ALL histories over {claim(c) answered with every enum value, release(c), other in-events(c)} to depth 3 / 4 un-pruned, each replayed on a fresh shell with an out-event probe after every operation, plus BFS pruned on (reference state, probe) to depth 6 / 8 (~90 000 histories quick); three-valued reference model.',
+            'All multi-client points of the lab space (naming variants incl. claim named Release and Python keywords, every granting value of a 4-field enum, claim/release signatures none/(in,out)/(inout), release declared before claim, an interface with nothing but claim/release/one out-event, multi-client port first/second/middle, namespaces, per-interface externs...) x 1..2 / 1..3 registered clients (identifiers related by prefix and case) x ALL histories over {claim(c) answered with every enum value, release(c), other in-events(c)} to depth 3 / 4 un-pruned, each replayed on a fresh shell with an out-event probe after every operation, plus BFS pruned on (reference state, probe) to depth 6 / 8; plus, to depth 2, every other registration ORDER of the clients and the alphabet extended with operations during which the component raises an out-event from inside the handler; three-valued reference model.',
             'Trusted: as C01 plus the reference model in gen_c04 (vf/lab.py). Situations with two simultaneous holders are accepted under any of three readings of the statement.'),
     'C06': ('DESIGN.md 4/C06',
             'BFS over inclusion states (sets of already included headers) of the returned headers, each transition one translation unit through g++ (clang++ in thorough); plus second-TU link/run and multi-prefix link',
-            'Corner-case points (global namespace, empty interface, no ports, multi-client, mixed semantics, prefixes, import, system, injected, namespace shadowing, per-interface externs, reversed/interleaved event order): BFS over inclusion states of the 7 returned headers - quick: every header alone, twice, every ordered pair, three full orders (1240 translation units), thorough: the complete 2^7 x 7 graph on 3 points, every point within 1 deviation, also with clang++; the shell constructed, wired, used and destroyed from a SECOND translation unit; up to 7 shells with prefixes that differ by name, digit, letter case and underscore linked into one program; quoted-include closure.',
+            'Corner-case points (global namespace, empty interface, no ports, multi-client, mixed semantics, prefixes, import, system, injected, namespace shadowing, per-interface externs, reversed/interleaved event order): BFS over inclusion states of the 7 returned headers - quick: every header alone, twice, every ordered pair, three full orders (~2900 translation units), thorough: the complete 2^7 x 7 graph on 3 points, every point within 1 deviation, also with clang++; the shell constructed, wired, used and destroyed from a SECOND translation unit; up to 7 shells with prefixes that differ by name, digit, letter case and underscore linked into one program; quoted-include closure; 1100 source file names (stems over the letters of the extension, every last character, dotted stems x 5 directory forms x 2 extensions): shell file names and model include.',
             'Trusted: compilers; the mock runtime headers include many standard headers, so missing standard includes are only judged for headers that include no dzn/ header.'),
     'C09': ('DESIGN.md 4/C09',
             'same compiled programs as C01; the shell is constructed for every subset of {dispatcher, runtime, service} in the user locator and identities/contents are asserted',
-            'Same programs as C01 x the shell constructed for every subset of {dispatcher, runtime, unrelated service} in the user locator (8, all in one process) x both origins incl. every STS/MTS assignment: throw verdict, locator / dispatcher / runtime identity seen by the component in its constructor, exact locator content, user locator unmodified, Locator() accessor present/absent; -Wreorder findings on facility members.',
+            "Same programs as C01 x the shell constructed for every subset of {dispatcher, runtime, unrelated service} in the user locator (8, all in one process) x both origins incl. every STS/MTS assignment: throw verdict, locator / dispatcher / runtime identity seen by the component in its constructor, exact locator content, user locator unmodified, Locator() accessor present/absent; -Wreorder findings on facility members; plus, on 8 points, a create shell and an import shell of the same encapsulee linked into ONE program and chained (import fed with the create shell's locator), each applying the check of its own origin.",
             'Trusted: as C01. The mock component reads its locator in the constructor like real Dezyne components.'),
     'C10': ('DESIGN.md 4/C10',
             'same compiled programs as C01; fault enumeration inside the program: every single binding left out one at a time on a fresh shell',
-            'Same programs as C01 x every event the user or the wrapped component must bind left out one at a time on a fresh shell (multi-client: x 0..4 registered clients): FinalConstruct must throw a runtime_error - and throw again when retried; fully bound must return and record the parent (also the default nullptr); registration after final construction must throw, also when no client was registered before.',
+            'Same programs as C01 x every event the user or the wrapped component must bind left out one at a time on a fresh shell (multi-client: x 0..4 registered clients): FinalConstruct must throw a runtime_error - and throw again when retried; fully bound must return and record the parent (also the default nullptr); registration after final construction must throw - six attempts with identifiers sorting before / between / after the registered ones, after which the identifier list is unchanged.',
             'Trusted: as C01; binding_error derives from std::runtime_error as in the Dezyne runtime.'),
     'C03': ('DESIGN.md 4/C03',
             'exhaustive enumeration of selection pairs x port sets per side, each run through PortsSemanticsCfg.match and end-to-end through Builder.build, judged by a reference resolver',
-            'Every (sts, mts) pair of selections over 3 (quick) / 4 (thorough) own names + unknown + other-side + injected name against every subset of real ports: single-side through match(), end-to-end through Builder.build paired with fixed representatives of the other side, the SAME selection pair on both sides, every preset helper function end-to-end (thorough: also one representative per verdict class crossed); ~290 000 / ~1.9 million cases; exhaustive inside the bound.',
+            'Every (sts, mts) pair of selections over 3 (quick) / 4 (thorough) own names + unknown + other-side + injected name against every subset of real ports x 0 / 1 / 3 injected ports: single-side through match(), end-to-end through Builder.build paired with fixed representatives of the other side - also with multi-client settings on the first / last provides name -, the SAME selection pair on both sides, every preset helper function end-to-end (thorough: also one representative per verdict class crossed); every build without and with verbose logging (outcomes must agree); ~430 000 / ~2.9 million cases; exhaustive inside the bound.',
             'Trusted: vf/refmodels/portcfg.py (three-valued). Semantics of accepted builds read from accessor types in the generated header; compiled confirmation is C02.'),
     'C05': ('DESIGN.md 4/C05',
             'explicit-state enumeration of all document shapes up to a node bound, parsed by the real DznJsonAst, compared with an independent expected-declaration printer',
-            'All documents of <=4 (quick) / <=5 (thorough) nodes over 11 leaf kinds and namespace names [A], [B], [A,B], [AB] (arbitrary nesting and re-opening) x 2 naming sweeps, plus the per-kind payload space (ports, events, formals, nested types, instances, bindings, ranges incl. equal and negative bounds, fields, data values incl. empty strings); 326 000 / 4.7 million documents; exhaustive inside the bound.',
+            'All documents of <=4 (quick) / <=5 (thorough) nodes over 11 leaf kinds and namespace names [A], [B], [A,B], [AB] (arbitrary nesting and re-opening) x 2 naming sweeps (3 up to 3 nodes: Python keywords, namespace names, case variants), plus the per-kind payload space (ports, events, formals, nested types, instances, bindings, ranges incl. equal and negative bounds, fields, data values incl. empty strings; lists of 3..6 elements; namespaces of 3..6 identifiers) parsed without and with verbose logging; 338 000 / 8.4 million documents; exhaustive inside the bound.',
             'Trusted: vf/docgen.py (three independent printers). Documents are well-formed; malformed ones are C15.'),
     'C07': ('DESIGN.md 4/C07',
             'exhaustive enumeration of declaration placements x referring scopes x spellings, each built by the real Builder, judged by a reference scope-chain lookup',
-            'Namespaces {global, A, A.B, C, AB (string-prefix sibling)} and paths repeating an identifier (A.A, A.B.A): every placement of {absent, right kind, decoy kind} x referring scopes x 6 spellings for port types, formal types (incl. a same-named enum nested in the referring interface; provides / requires / multi-client / STS), the claim reply enum (nested and outer) and the encapsulee; ~40 000 builds; uniquely resolving cases must use exactly the selected declaration, all others must fail; thorough additionally compiles ~800 uniquely resolving cases in the lab.',
+            'Namespaces {global, A, A.B, C, AB (string-prefix sibling)}, paths repeating an identifier (A.A, A.B.A, A.A.B) incl. references qualified with the complete referring scope, and the scope A.B written as ONE multi-identifier namespace: every placement of {absent, right kind, decoy kind} x referring scopes x 6 spellings for port types, formal types (incl. a same-named enum nested in the referring interface, same-named parameters of another extern type in neighbouring events; provides / requires / multi-client / STS), the claim reply enum (nested and outer) and the encapsulee; ~50 000 builds, each without and with verbose logging; uniquely resolving cases must use exactly the selected declaration, all others must fail; thorough additionally compiles ~800 uniquely resolving cases in the lab.',
             'Trusted: modelgen.lookup. Types are read from the generated text; that the text compiles against distinct non-convertible types is covered by the lab checks. Formal types resolving to non-externs: any failure accepted.'),
     'C08': ('DESIGN.md 4/C08',
-            'stateless exploration of all set-iteration-order choice sequences (deviation bounded) of real builds through an injected ControlledSet seam, validated against real PYTHONHASHSEED child processes',
-            '~85 configurations naming 2-3 ports (incl. names equal under case folding), events with 2-4 formals, multi-client on/off: every sequence of set-iteration-order permutations with <=1 (quick; 2 on two configurations) / <=2 (thorough; 3 on two) non-identity choices gives byte-identical files; every reported hash is recomputed, also after an earlier build of another configuration in the same process; 8 / 64 real PYTHONHASHSEED child interpreters x 2 insertion orders must reproduce the explored output and show at least two real orders.',
+            'stateless exploration of all set-iteration-order choice sequences (deviation bounded) of real builds through an injected ControlledSet seam, validated against real PYTHONHASHSEED child processes; a second seam for the process environment (one child interpreter per single deviation from the default environment answer); construction schedules of the name sets; exhaustive length sweep of the content-hash law',
+            '~90 configurations naming 2-3 ports (incl. names equal under case folding, injected ports named explicitly), events with 2-4 formals, multi-client on/off: every sequence of set-iteration-order permutations with <=1 (quick; 2 on two configurations) / <=2 (thorough; 3 on two) non-identity choices gives byte-identical files; the name sets completed at each of 6 later construction stages; every reported hash is recomputed, also after an earlier build of another configuration in the same process; content hash == MD5(UTF-8) for every content length 0..8999 / 0..65999 x 8 patterns of multi-byte characters; 8 / 64 real PYTHONHASHSEED child interpreters x 2 insertion orders must reproduce the explored output and show at least two real orders; 25 environment answers (what the source file name denotes in the working directory, environment variables, clock, umask, program name) must reproduce it as well.',
             'Seam covers iteration over sets of port names; anything else nondeterministic is caught only by the real-seed child runs (demonstrated with a hash()-ordering mutant).'),
-    'C11': ('DESIGN.md 4/C11', 'stateless model checking of the compiled generated code: DFS over all thread schedules under '
-            'a cooperative scheduler with link-time interposed pthread mutexes, iterative preemption bounding, deadlock '
-            'detection; plus a separate free-running ThreadSanitizer pass',
-            'H1 (MutexWrapped, 2-3 threads, every release-mode assignment) complete for 2 threads and bound 2 for 3 (thorough: '
-            'complete); H2 (multi-client shell, legal arbiter, dispatcher, 2-3 clients, environment events) at the bounds listed '
-            'per experiment in the evidence (quick ~70 000 schedules; thorough: 2 clients unbounded, 3 clients bound 1); monitor '
-            'on every out-event; TSan pass of the same bodies.',
-            'Trusted: vf/cxx/sched.hh + interposer, scheduled mock pump, libstdc++ mapping std::mutex to pthread_mutex_*. '
-            'Memory-model effects below synchronisation operations only via TSan.'),
+    'C11': ('DESIGN.md 4/C11',
+            'stateless model checking of the compiled generated code: DFS over all thread schedules under a cooperative scheduler with link-time interposed pthread mutexes and reader/writer locks, iterative preemption bounding, deadlock detection; plus a separate free-running ThreadSanitizer pass (a run whose threads all block is reported as a hang)',
+            'H1 (MutexWrapped, 2-3 threads, every release-mode assignment) complete for 2 threads and bound 2 for 3 (thorough: complete); H2 (multi-client shell, legal arbiter, dispatcher, 2-3 clients, environment events) around a shell that creates AND around one that imports its facilities, at the bounds listed per experiment in the evidence (quick ~100 000 schedules; thorough ~4.4 million: 2 clients unbounded, 3 clients bound 1); monitor on every out-event; TSan pass of the same bodies.',
+            'Trusted: vf/cxx/sched.hh + interposer, scheduled mock pump, libstdc++ mapping std::mutex to pthread_mutex_*. Memory-model effects below synchronisation operations only via TSan.'),
     'C12': ('DESIGN.md 4/C12',
             'explicit-state exploration of build histories on shared input objects, replayed on fresh objects; un-pruned sweep + BFS pruned on a canonical deep snapshot incl. all module-level state',
-            'All histories of <=2 (quick) / <=3 (thorough) builds over 32 operations (4 models incl. one whose MTS build fails late x 4 configurations, two of them failing in different ways x shared/fresh Builder) on shared FileContents / Configuration / PortsCfg / name-set objects, plus BFS pruned on the canonical state to depth 4 / 6; every build compared with a fresh-process reference (names, md5, reported hash), inputs deep-snapshotted before/after, support files compared with stand-alone generation, module/class-level state digest compared with the pristine one.',
+            'All histories of <=2 (quick) / <=3 (thorough) builds over 32 operations (4 models incl. one whose MTS build fails late x 4 configurations, two of them failing in different ways, two logging verbosely, one with two explicit name sets x shared/fresh Builder) on shared FileContents / Configuration / PortsCfg / PortSelect / name-set objects, plus BFS pruned on the canonical state to depth 4 / 6; every build compared with a fresh-process reference (names, md5, reported hash), inputs deep-snapshotted before/after, support files compared with stand-alone generation - also for every sequence of 1..2 builds over 16 namespace prefixes (Dzn, Vendor.Dzn, Dzn.Dzn, dzn, ...) -, module/class-level state digest compared with the pristine one.',
             'Trusted: vf/snapshot.py. Pruning argument in the evidence; cross-checked by the un-pruned sweep.'),
     'C19': ('DESIGN.md 4/C19',
             'exhaustive enumeration of comment contents (strings over an alphabet with all line breaks, hostile fragments, content trees) rendered by the real Comment and by the real Builder',
@@ -67,31 +62,31 @@ CHECKS = {
             'Trusted: vf/refmodels/text.py and the union splitter in c19.py.'),
     'C20': ('DESIGN.md 4/C20',
             'full product enumeration of building-block descriptions rendered by the real cpp_gen, token streams compared with an independent tokenizer; meaningful subset compiled with g++ -fsyntax-only',
-            '~93 000 descriptions: the full product of Function dimensions, Constructor / Destructor / Namespace / Struct / Class / sections / includes / MemberVariable / Param over 432 type descriptions, the helper creators, and object-sharing sequences; declaration and definition token streams must equal the expected ones (independent tokenizer); 5 200 meaningful functions composed into structs inside rendered namespaces and syntax-checked by g++; exhaustive, same in both tiers.',
+            '~94 000 descriptions: the full product of Function dimensions, Constructor / Destructor / Namespace / Struct / Class / sections / includes / MemberVariable / Param over 432 type descriptions, the helper creators, object-sharing sequences, contents that are comments / blocks with header / indented or nested blocks, every pattern of present / absent constructor parameters, and observe-change-observe sequences compared with fresh blocks; declaration and definition token streams must equal the expected ones (independent tokenizer); 5 200 meaningful functions composed into structs inside rendered namespaces and syntax-checked by g++; exhaustive, same in both tiers.',
             'Trusted: the tokenizer and expected-token builders in c20.py; g++ 12.'),
     'C13': ('DESIGN.md 4/C13',
-            'deviation-bounded enumeration of model/configuration points x single-fault catalogue, each built by the real Builder under an alarm watchdog, judged by reference validity rules',
-            'Every point within 2 (quick) / 3 (thorough) deviations of the base point must build to the exact 8-file set; every applicable single fault of the catalogue (encapsulee unknown / wrong kind / ambiguous / empty / too long, port type missing / wrong kind / ambiguous, every C03 rejection class, 20 multi-client faults, odd file names) must fail with a dznpy error type; ~32 000 / ~300 000 builds under an alarm watchdog; exhaustive inside the bound.',
+            'deviation-bounded enumeration of model/configuration points x single-fault catalogue, each built by the real Builder (without and with verbose logging) under a CPU-time watchdog, judged by reference validity rules',
+            'Every point within 2 (quick) / 3 (thorough) deviations of the base point must build to the exact 8-file set; every applicable single fault of the catalogue (encapsulee unknown / wrong kind / ambiguous / empty / too long, port type missing / wrong kind / ambiguous, every C03 rejection class and every valid alternative spelling of a selection, empty name sets / names, 20 multi-client faults, facilities origin that is not a member of the enumeration, odd file names) must fail with a dznpy error type resp. succeed; ~59 000 / ~690 000 cases; no verdict depends on wall-clock time; exhaustive inside the bound.',
             'Trusted: modelgen.Facts (reference lookup), refmodels/portcfg.py, the multi-client validity rules in c13.py.'),
     'C14': ('DESIGN.md 4/C14',
             'exhaustive enumeration of declaration sets x searched names x calling scopes over a 3-identifier alphabet on the real find_fqn/find_any/scope_resolution_order, judged by set comprehensions',
-            'Identifiers {a, b, ab}: full declaration set, all sets of <=1 (quick) / <=2 (thorough) declarations and sets declaring one FQN two or three times x 39 names x 41 scopes through find_fqn / scope_resolution_order / find_any (~180 000 / 1.4 million queries); all strings of length <=4 / 5 over a 10-symbol alphabet and every ASCII character probed at every identifier position through namespaceids_t / NamespaceIds; all id lists <=3 through every notation, +, +=, sum and NamespaceTree (3 levels) with aliasing checks.',
+            'Identifiers {a, b, ab}: full declaration set, all sets of <=1 (quick) / <=2 (thorough) declarations and sets declaring one FQN two or three times x 39 names x 41 scopes through find_fqn / scope_resolution_order / find_any (~180 000 / 1.4 million queries); all strings of length <=4 / 5 over a 10-symbol alphabet, all token sequences of <=5 / 6 tokens over 3 identifiers and the delimiters, and every ASCII character probed at every identifier position through namespaceids_t / NamespaceIds; all id lists <=3 through every notation, +, +=, sum and NamespaceTree with aliasing, fresh-value and observe-change-observe laws; id lists of 4..7 identifiers cut into every sequence of NamespaceTree levels.',
             'Trusted: the comprehensions in vf/checks/c14.py. Searched names have >=1 identifier.'),
     'C15': ('DESIGN.md 4/C15',
             'exhaustive single-fault (thorough: pair-fault) enumeration at every JSON node of seed documents, parsed by the real DznJsonAst; oracle = exception class',
-            'All single faults (delete / retype to 11 values / retag to 30 tags / invalid identifiers / list surgery / int variants) at every JSON node of the large document and all 1-node documents (thorough: all 2-node documents and all fault pairs on the 1-node documents, 7.2 million parses); every out-event signature over 8 reply spellings x <=2 formals x 7 spellings of the direction; exhaustive inside the bound.',
+            'All single faults (delete / retype to 11 values / retag to 45 tags incl. format-special ones / 26 invalid or format-special identifiers / list surgery / 25 integer-like values) at every JSON node of the large document and all 1-node documents, parsed without and with verbose logging (thorough: all 2-node documents and all fault pairs on the 1-node documents, ~10 million parses); every out-event signature over 8 reply spellings x <=2 formals x 7 spellings of the direction; exhaustive inside the bound.',
             'Input is valid JSON. Trusted: the fault operators in vf/checks/c15.py.'),
     'C16': ('DESIGN.md 4/C16',
             'explicit-state exploration of all operation histories (new/load/process on 2-3 parser slots, 3 documents) replayed on fresh objects; un-pruned sweep + BFS pruned on a canonical state',
-            "2 (quick) / 3 (thorough) parser slots, 4 documents (D1 re-using D0's names, D2 failing inside a nested namespace, D3 declaring nothing), operations new / load_file on the existing instance / fresh instance + load_file through ONE shared path whose content is rewritten / process: ALL histories to depth 4 un-pruned (350 000 quick) and pruned BFS to depth 5 / 7; every process() result compared with the expected declarations, earlier results re-checked after every operation.",
+            '2 (quick) / 3 (thorough) parser slots, 4 documents (D0 and D1 declare the SAME fully qualified names for every declaration kind with different payloads, spell namespace A.B in the two possible ways and clash type / namespace names across documents; D2 failing inside a nested namespace; D3 declaring nothing), operations new / load_file on the existing instance / fresh instance + load_file through ONE shared path whose content is rewritten / process: ALL histories to depth 4 un-pruned (350 000 quick), pruned BFS to depth 5 / 7, and on ONE instance every sequence of load_file / process of length <= 6 / 7; every process() result compared with the expected declarations AND (==, repr) with the result of a fresh parser, earlier results re-checked after every operation.',
             'Trusted: vf/docgen.py. Pruning argument in the evidence assumptions; cross-checked by the un-pruned sweep.'),
     'C17': ('DESIGN.md 4/C17',
             'explicit-state enumeration of all content trees/strings up to a bound, each executed on the real TextBlock, judged by an independent reference flattener',
-            'Every string of <=3 symbols over an alphabet containing all 11 Python line-break sequences, every content tree of <=4 (quick) / <=5 (thorough) nodes over 8 leaves x 4 container kinds, the same container OBJECT at several positions, scalars that look empty (0, 0.0, False) - poured through TextBlock / append / + / += / trim / chunk / cond_chunk / lines setter and compared with a reference model written from the statement; exhaustive inside the bound.',
+            'Every string of <=3 symbols over an alphabet containing all 11 Python line-break sequences, every content tree of <=4 (quick) / <=5 (thorough) nodes over 8 leaves x 4 container kinds, the same container OBJECT at several positions, scalars that look empty (0, 0.0, False) - poured through TextBlock / append / + / += / trim / chunk / cond_chunk / lines setter, also after the block has been observed (string form and lines stay two views of one state), and compared with a reference model written from the statement; exhaustive inside the bound.',
             'Trusted: the reference model vf/refmodels/text.py. Open cases of the statement are accepted either way (listed in the evidence assumptions).'),
     'C18': ('DESIGN.md 4/C18',
             'exhaustive product enumeration (line sequences x indenter configurations) on the real Indentizer/TextBlock, judged by a direct specification',
-            'All 400 line sequences x 96 indenter configurations (spaces 0-5 / tab, no bullets / all / first-only, glyphs shorter, equal and longer than the width, factory presets) through to_list, to_str, TextBlock.indent (header / no header, explicit / pre-set indentor), repeated indentation incl. a second plain indent(), and list/string agreement on lines containing exotic characters; exhaustive inside the bound, same in both tiers.',
+            'All 400 line sequences x 96 indenter configurations (spaces 0-5 / tab, no bullets / all / first-only, glyphs shorter, equal and longer than the width, factory presets incl. their None argument) through to_list, to_str, TextBlock.indent (header as string / list / TextBlock object that is changed afterwards, explicit / pre-set indentor), repeated indentation incl. a second plain indent(), bare strings and falsy scalars as contents, and list/string agreement on lines containing exotic characters; exhaustive inside the bound, same in both tiers.',
             'Trusted: the prefix specification in vf/checks/c18.py. Bullet lines may be right-stripped.'),
 }
 
